@@ -1,5 +1,91 @@
-(* C35: HTTP/2 stream state machine is enforced without internal failures.  Property theorems only. *)
+(* C35: HTTP/2 stream state machine is enforced without internal failures.  Property theorems only.
+   Model: model/H2Stream.v; every panic site of the modelled functions ("internal error ...",
+   "invariant; can't close stream", "negative update", flow.take "took too much", window-update
+   overflow, nil body pipe in endStream) is the outcome c_bug = true / event (5,0,1). *)
 From Coq Require Import List ZArith Bool.
-From Bfe Require Import lib.Val model.H2Flow model.H2Stream run.RunC35.
+From Bfe Require Import lib.Val model.H2Flow model.H2Stream run.RunC33 run.RunC35 proofs.H2StreamProofs.
 Import ListNotations.
 Open Scope Z_scope.
+
+(* Headline: for every configuration and every well-formed script of client frames interleaved with
+   handler reads / body closes / returns, no panic site is reached (true since /repo commit e9ece48;
+   before it: HEADERS+END_STREAM twice on one stream panicked). *)
+Theorem C35_no_bug_reachable : forall isw maxs ops,
+  wf_cfg isw maxs = true -> forallb wf_op ops = true ->
+  c_bug (fst (run_ops (init_conn isw maxs) ops)) = false.
+Proof. exact no_bug_reachable. Qed.
+Print Assumptions C35_no_bug_reachable.
+
+(* The same for what the harness compares: the model output of any accepted input ends with [0] panics. *)
+Theorem C35_model_output_no_panic : forall i c out isw maxs ops,
+  dec_script i = Some (isw, maxs, ops) -> run_ops (init_conn isw maxs) ops = (c, out) ->
+  run_C35 i = enc_out c out /\ c_bug c = false.
+Proof. exact run_script_no_panic. Qed.
+Print Assumptions C35_model_output_no_panic.
+
+(* C35_rules, as coded (events: (2,id,code) RST_STREAM, (4,last,code) GOAWAY, (5,0,0) close). *)
+(* even (or zero) stream id: connection error PROTOCOL_ERROR *)
+Theorem C35_rule_odd_ids : forall c id es kind clen,
+  (id mod 2 =? 1) = false -> step_headers c id es kind clen = goaway c 1.
+Proof. exact rule_even_id. Qed.
+Print Assumptions C35_rule_odd_ids.
+(* HEADERS for an id that is not an open stream and is not larger than every id seen: PROTOCOL_ERROR *)
+Theorem C35_rule_increasing_ids : forall c id es kind clen,
+  (id mod 2 =? 1) = true -> find_live id (c_streams c) = None -> id <= c_max c ->
+  step_headers c id es kind clen = goaway c 1.
+Proof. exact rule_ids_increase. Qed.
+Print Assumptions C35_rule_increasing_ids.
+(* a new stream beyond the advertised limit: the connection is closed (BFE's choice), no panic *)
+Theorem C35_rule_concurrency_limit : forall c id es kind clen c' evs,
+  (id mod 2 =? 1) = true -> find_live id (c_streams c) = None -> c_max c < id -> c_adv c <= c_cur c ->
+  step_headers c id es kind clen = (c', evs) -> c_dead c' = true /\ evs = [(5, 0, 0)] /\ c_bug c' = c_bug c.
+Proof. exact rule_concurrency_limit. Qed.
+Print Assumptions C35_rule_concurrency_limit.
+(* HEADERS on a half-closed(remote) stream: stream error STREAM_CLOSED, connection continues *)
+Theorem C35_rule_headers_on_half_closed : forall c st es kind clen c' evs,
+  Good c -> c_bug c = false -> (s_id st mod 2 =? 1) = true ->
+  find_live (s_id st) (c_streams c) = Some st -> s_state st = 2 ->
+  step_headers c (s_id st) es kind clen = (c', evs) -> evs = [(2, s_id st, 5)] /\ c_dead c' = c_dead c.
+Proof. exact rule_headers_on_half_closed. Qed.
+Print Assumptions C35_rule_headers_on_half_closed.
+(* DATA on a stream that is not open (closed, half-closed, never opened, trailers seen):
+   RST_STREAM STREAM_CLOSED (or FLOW_CONTROL_ERROR when it also exceeds the connection window) *)
+Theorem C35_rule_data_not_open : forall c id dlen pad es c' evs,
+  Good c -> c_bug c = false -> wf_op (OData id dlen pad es) = true -> id <> 0 ->
+  (forall st, find_live id (c_streams c) = Some st -> (s_state st =? 1) && negb (s_trailer st) = false) ->
+  step_data c id dlen pad es = (c', evs) ->
+  (In (2, id, 5) evs \/ evs = [(2, id, 3)]) /\ c_dead c' = c_dead c.
+Proof. exact rule_data_not_open. Qed.
+Print Assumptions C35_rule_data_not_open.
+
+(* Non-vacuity: the pre-fix panic script now yields RST_STREAM(STREAM_CLOSED); limit 1 closes on the 2nd stream. *)
+Example C35_nonvacuous :
+  let ops := [OHeaders 1 true 0 (-1); OHeaders 1 true 1 (-1); OData 1 3 (-1) false; OHeaders 3 false 0 (-1)] in
+  wf_cfg 0 1 = true /\ forallb wf_op ops = true /\
+  snd (run_ops (init_conn 0 1) ops) = [[]; [(2, 1, 5)]; [(1, 0, 3); (2, 1, 5)]; []] /\
+  snd (run_ops (init_conn 0 1) [OHeaders 1 false 0 (-1); OHeaders 3 false 0 (-1)]) = [[]; [(5, 0, 0)]].
+Proof. exact (conj eq_refl (conj eq_refl (conj eq_refl eq_refl))). Qed.
+
+(* "The connection either continues or ends with GOAWAY or close": one step from any state satisfying
+   the invariant either leaves the alive/dead flag as it was, or its only event is GOAWAY (4,last,code)
+   or a plain close (5,0,0); and no event of the step reports a serve-loop panic (5,0,p<>0). *)
+Theorem C35_continues_or_clean_end : forall c o c' evs,
+  Good c -> c_bug c = false -> wf_op o = true -> step c o = (c', evs) ->
+  c_bug c' = false /\ (c_dead c' = c_dead c \/ clean_end evs) /\ (forall e, In e evs -> evt_ok e).
+Proof. exact step_alive_or_clean_end. Qed.
+Print Assumptions C35_continues_or_clean_end.
+
+(* Whole scripts: no event ever printed by the model is a panic-close. *)
+Theorem C35_no_panic_event : forall isw maxs ops,
+  wf_cfg isw maxs = true -> forallb wf_op ops = true ->
+  forall evs, In evs (snd (run_ops (init_conn isw maxs) ops)) -> forall e, In e evs -> evt_ok e.
+Proof. exact no_panic_event. Qed.
+Print Assumptions C35_no_panic_event.
+
+(* The counter compared with the advertised limit (C35_rule_concurrency_limit) really is the number of
+   streams that are open or half-closed: in every reachable live state curOpenStreams equals the number
+   of stream objects not yet closed. *)
+Theorem C35_cur_counts_live_streams : forall c,
+  reach c -> c_dead c = false -> c_cur c = nlive (c_streams c).
+Proof. exact cur_counts_live_streams. Qed.
+Print Assumptions C35_cur_counts_live_streams.
